@@ -322,6 +322,7 @@ func (a *mqAlloc) ReleaseBlockMemory(p peer.ID, n uint64) error {
 }
 
 type mqObs struct {
+	strandedLive     int // non-empty builders in a live, idle queue at the idle point
 	viol             []string
 	allocIdle        uint64 // AllocatedForPeer at the idle point (connection up, nothing queued)
 	statsIdle        graphsync.ResponseStats
@@ -406,6 +407,19 @@ func mqRun(cfg vsched.Config, sc mqScenario) (*mqObs, *vsched.Sched) {
 			}
 			return n
 		}
+		strandedLiveNow := func() int {
+			n := 0
+			for _, q := range w.queues {
+				if bf, ok := core.Field(q.mq, "builders"); ok && !q.exited && !doneClosed(q.mq) {
+					for i := 0; i < bf.Len(); i++ {
+						if b, ok := bf.Index(i).Interface().(*messagequeue.Builder); ok && !b.Empty() {
+							n++
+						}
+					}
+				}
+			}
+			return n
+		}
 		atDeadlock = func() {
 			obs.allocIdle = w.alloc.AllocatedForPeer(mqPeer)
 			obs.statsIdle = w.alloc.Stats()
@@ -448,6 +462,9 @@ func mqRun(cfg vsched.Config, sc mqScenario) (*mqObs, *vsched.Sched) {
 					switch o.K {
 					case "Q":
 						vsched.Quiesce()
+					case "noop":
+						// a build that adds nothing (what a transaction on an already closed stream does)
+						h.AllocateAndBuildMessage(mqPeer, 0, func(b *messagequeue.Builder) {})
 					case "C":
 						pmm.Connected(mqPeer)
 					case "D":
@@ -517,6 +534,7 @@ func mqRun(cfg vsched.Config, sc mqScenario) (*mqObs, *vsched.Sched) {
 		obs.allocIdle = w.alloc.AllocatedForPeer(mqPeer)
 		obs.statsIdle = w.alloc.Stats()
 		obs.stranded = strandedNow()
+		obs.strandedLive = strandedLiveNow()
 		obs.reservedNotBuilt = w.reservedNotBuilt
 		atDeadlock = nil
 		// balance the scenario's connects, then a final connect/disconnect pair:
@@ -734,6 +752,9 @@ func mqJudge(id string, sc mqScenario, o *mqObs) *core.Violation {
 			return mk("out-of-order/"+p[0], p[1])
 		}
 	case "C16":
+		if o.strandedLive > 0 {
+			return mk("never-reported/message-stranded-in-a-live-idle-queue", fmt.Sprintf("at the idle point (every driver done, nothing enabled) %d non-empty message(s) sit in a queue that is alive and not sending", o.strandedLive))
+		}
 		if len(o.unresolved) > 0 {
 			cause := "message-left-in-shut-down-queue"
 			if strings.Contains(o.unresCause, "queue-still-running") || o.unresCause == "" {
@@ -806,6 +827,9 @@ func mqScenariosC17(thorough bool) []mqScenario {
 		{Name: "C17.ccdd-vs-2req-faults", Threads: [][]mqOp{{{K: "C"}, {K: "C"}, {K: "D"}, {K: "D"}}, {req, req}}, Retries: 2, Faults: true, MaxFaults: 2},
 		// several builders pile up behind a stalled first send that then fails: what is left must still leave in build order
 		{Name: "C17.held-first-send-fails-4-builders", Threads: [][]mqOp{{{K: "blk", Req: 1, Size: 300 * 1024}, {K: "Q"}, {K: "blk", Req: 1, Size: 300 * 1024}, {K: "blk", Req: 2, Size: 300 * 1024}, {K: "blk", Req: 3, Size: 300 * 1024}}}, Retries: 1, Faults: true, MaxFaults: 1, PreConn: true, Hold: true},
+		// behind a stalled send: a builder with room left, a second builder, then a small block
+		{Name: "C17.held-send-300k-400k-100k", Threads: [][]mqOp{{{K: "blk", Req: 1, Size: 10}, {K: "Q"}, {K: "blk", Req: 2, Size: 300 * 1024}, {K: "blk", Req: 3, Size: 400 * 1024}, {K: "blk", Req: 4, Size: 100 * 1024}, {K: "blk", Req: 5, Size: 50 * 1024}}}, Retries: 1, PreConn: true, Hold: true},
+		{Name: "C17.held-send-mixed-sizes-faults", Threads: [][]mqOp{{{K: "blk", Req: 1, Size: 10}, {K: "Q"}, {K: "blk", Req: 2, Size: 200 * 1024}, {K: "blk", Req: 3, Size: 350 * 1024}, {K: "blk", Req: 2, Size: 100 * 1024}, {K: "blk", Req: 4, Size: 450 * 1024}, {K: "blk", Req: 3, Size: 60 * 1024}}}, Retries: 1, Faults: true, MaxFaults: 1, PreConn: true, Hold: true},
 		{Name: "C17.held-first-send-fails-5-builders", Threads: [][]mqOp{{{K: "blk", Req: 1, Size: 300 * 1024}, {K: "Q"}, {K: "blk", Req: 2, Size: 300 * 1024}, {K: "blk", Req: 1, Size: 300 * 1024}, {K: "blk", Req: 3, Size: 300 * 1024}, {K: "blk", Req: 4, Size: 300 * 1024}}}, Retries: 1, Faults: true, MaxFaults: 1, PreConn: true, Hold: true},
 	}
 	// every single-threaded operation sequence over {Connected, Disconnected, send} up to
@@ -863,6 +887,9 @@ func mqScenariosC16(thorough bool) []mqScenario {
 		{Name: "C16.req-vs-d-faults", Threads: [][]mqOp{{req, req}, {{K: "D"}}}, Retries: 1, PreConn: true, Faults: true, MaxFaults: 1, Bound: 3},
 		{Name: "C16.resp-vs-d-faults", Threads: [][]mqOp{{blk(1, 10), fin(1)}, {{K: "D"}}}, Retries: 2, PreConn: true, Faults: true, MaxFaults: 2},
 		{Name: "C16.2resp-2threads-faults", Threads: [][]mqOp{{blk(1, 10), fin(1)}, {blk(2, 10), fin(2)}}, Retries: 1, Faults: true, MaxFaults: 2, PreConn: true},
+		// an empty builder at the head of the queue with a full-size builder behind it
+		{Name: "C16.noop-then-big-block", Threads: [][]mqOp{{{K: "noop"}, blk(1, 600*1024), fin(1)}}, Retries: 1, PreConn: true},
+		{Name: "C16.noop-then-big-block-2threads", Threads: [][]mqOp{{{K: "noop"}, blk(1, 600*1024)}, {{K: "noop"}, blk(2, 600*1024)}}, Retries: 1, PreConn: true, Faults: true, MaxFaults: 1},
 		// the disconnect lands while the queue re-dials after a failed send
 		{Name: "C16.resp-vs-d-at-redial-faults", Threads: [][]mqOp{{blk(1, 10), fin(1)}, {{K: "D", AtDial: 2}}}, Retries: 2, PreConn: true, Faults: true, MaxFaults: 1},
 		{Name: "C16.req-vs-d-at-redial-faults", Threads: [][]mqOp{{req, req}, {{K: "D", AtDial: 2}}}, Retries: 3, PreConn: true, Faults: true, MaxFaults: 2},
